@@ -30,7 +30,7 @@ BOUNDS = {
     'thorough': 'depth 1: 6 codes x 3 forms x 9 variants; depth 2: 2 codes from every distinct depth-1 state x 3 variants',
 }
 
-D2_QUICK = (0, 1, 5, 10, 11, 12, 15, 16, 20, 22, 23, 27, 28, 38)
+D2_QUICK = (0, 1, 5, 10, 11, 12, 15, 16, 20, 22, 23, 27, 28, 38, 44)
 VARIANTS_Q = ['none', 'full']
 VARIANTS_ALL = ['none', 'full'] + list(B.GROUPS)
 
@@ -78,7 +78,7 @@ def run_shard(desc, tier, res):
     import fst
     src0 = PROGRAMS[desc['prog']]
     if desc['mode'] == 'groups':  # depth 1, every single query group as the deviation
-        for op in E.enumerate_ops(src0, nk=1 if tier == 'quick' else 3, nks=1, forms=('src',), opts=({},)):
+        for op in E.enumerate_ops(src0, nk=1 if tier == 'quick' else 3, nks=1, forms=('src',), opts=({},), extra=('par',)):
             for g in B.GROUPS:
                 root = fst.FST(src0, 'exec')
                 B.battery(root, (g,))
@@ -109,7 +109,7 @@ def run_shard(desc, tier, res):
                 res.sample({'start': src0, 'history': [E.op_id(o) for o in hist], 'variant': variant, 'result': c2[2]})
             return ok
 
-        a1 = dict(nk=3, nks=2, forms=('src', 'fst'), opts=({},)) if tier == 'quick' else dict(nk=6, nks=3, opts=({},))
+        a1 = dict(nk=3, nks=2, forms=('src', 'fst'), opts=({},), extra=('par',)) if tier == 'quick' else dict(nk=6, nks=3, opts=({},), extra=('par',))
         a2 = dict(nk=1, nks=1, forms=('src',), opts=({},), kinds=('replace', 'remove', 'put_slice', 'del_slice', 'insert',
                                                                   'setattr', 'delattr', 'docstr', 'line_comment')) \
             if tier == 'quick' else dict(nk=2, nks=1, forms=('src',), opts=({},))
